@@ -113,6 +113,38 @@ def batch_result_scene(ctx, R):
         pb = ctx.anchor(R, t['predict'])
         if vt is None or pb is None:
             continue
+        # where the job carries the scene of its batch entry: the component of the VotingCommands::Distances payload
+        # that predict fills with the scene it advanced the epoch for (the payload is private: the component is
+        # found by what is stored in it, the voting thread must read that same component back)
+        ebp = ExprBuilder(pb)
+        okp = False
+        scene_path = None
+        detail = ''
+        ne = pb.find_calls(T.EPOCH + '::next_epoch')
+        want = repr(ebp.arg(ne[0], 1).strip()) if ne else None
+
+        def leaves(x, path=()):
+            x2 = x.strip() if x.kind == 'call' and not x.proj else x
+            if x2.kind == 'agg' and not x2.proj and len(path) < 3 and isinstance(x2.extra, dict) and \
+                    x2.extra.get('ak') in ('adt', 'tuple') and not x2.name.startswith('std::'):
+                names = x2.extra.get('fields') or [str(i) for i in range(len(x2.args))]
+                for nm, y in zip(names, x2.args):
+                    for r in leaves(y, path + (str(nm),)):
+                        yield r
+            else:
+                yield path, x
+        for c in pb.find_calls('crossbeam::crossbeam_channel::Sender::send'):
+            v = ebp.arg(c, 1)
+            for x in v.walk():
+                if x.kind == 'agg' and x.name.endswith('VotingCommands::Distances'):
+                    for path, leaf in leaves(x):
+                        if want is not None and repr(leaf.strip()) == want:
+                            okp = True
+                            scene_path = path
+                            detail = '%s = %s' % ('.'.join(path), want)
+        n += 1
+        ctx.check(okp, R, pb, tname + ':job-carries-entry-scene', detail[:100],
+                  'the voting job is not labelled with the scene id of the batch entry it was built from')
         eb = ExprBuilder(vt)
         sends = [c for c in vt.find_calls('crossbeam::crossbeam_channel::Sender::send')]
         ok = False
@@ -122,24 +154,13 @@ def batch_result_scene(ctx, R):
             if v.kind == 'agg' and v.name == 'tuple' and len(v.args) == 2:
                 sc = v.args[0].strip()
                 detail = repr(sc)
-                ok = sc.has_field('scene_id') and sc.has_call('recv')
+                proj = [str(x) for x in (sc.proj if sc.kind == 'call' else sc.fields)]
+                if 'as Distances' in proj:
+                    proj = proj[len(proj) - proj[::-1].index('as Distances'):]
+                ok = sc.has_call('recv') and scene_path is not None and tuple(proj) == tuple(scene_path)
         n += 1
         ctx.check(ok, R, vt, tname + ':result-carries-job-scene', detail[:100],
                   'the voting thread does not send its result together with the scene id of the job (%s)' % detail)
-        ebp = ExprBuilder(pb)
-        okp = False
-        for c in pb.find_calls('crossbeam::crossbeam_channel::Sender::send'):
-            v = ebp.arg(c, 1)
-            for x in v.walk():
-                if x.kind == 'agg' and x.name.endswith('VotingCommands::Distances'):
-                    m = dict(zip(x.extra['fields'], x.args))
-                    sc = m['scene_id'].strip()
-                    ne = pb.find_calls(T.EPOCH + '::next_epoch')
-                    okp = bool(ne) and repr(sc) == repr(ebp.arg(ne[0], 1).strip())
-                    detail = repr(sc)
-        n += 1
-        ctx.check(okp, R, pb, tname + ':job-carries-entry-scene', detail[:100],
-                  'the voting job is not labelled with the scene id of the batch entry it was built from')
     return n
 
 
